@@ -200,14 +200,40 @@ func attBase(cfg string, slot, idx uint64, pos int) *kvs {
 	if slot > 0 {
 		bslot = slot - 1
 	}
+	troot, anc := voteChain(ep*spe, bslot, pos)
 	k := newKVs("att")
 	k.set("cfg", cfg).set("fork", "phase0").setU("slot", slot).setU("idx", idx).setU("tepoch", ep).
 		setU("bitlen", uint64(len(comm))).setL("bits", []uint64{uint64(pos % len(comm))}).
-		setU("subnet", specSubnet(spe, cps, slot, idx)).setU("broot", 1).setU("troot", 3).set("sigk", "ok").set("signer", "voter").
-		setU("min", slot).setU("max", slot).set("bad", "0").set("bknown", "1").setU("bslot", bslot).set("tsub", "yes").
-		set("tckpt", "1").setU("froot", 2).set("fsub", "yes").setU("fepoch", fe).set("tow", "1").set("epc", "1").
+		setU("subnet", specSubnet(spe, cps, slot, idx)).setU("broot", 1).setU("troot", troot).set("sigk", "ok").set("signer", "voter").
+		setU("min", slot).setU("max", slot).set("bad", "0").set("bknown", "1").setU("bslot", bslot).set("anc", fmtPairs(anc)).
+		setU("denebepoch", ^uint64(0)).set("tsub", "yes").
+		setU("froot", 2).set("fsub", "yes").setU("fepoch", fe).set("tow", "1").set("epc", "1").
 		set("seen", "0").set("dom", "1")
 	return k
+}
+
+// voteChain: an honest chain view below the voted block (root 1 at bslot) for a target epoch starting at tslot:
+// the target root and the ancestors. If the block is not after tslot it is its own checkpoint block.
+func voteChain(tslot, bslot uint64, variant int) (troot uint64, anc [][2]uint64) {
+	if bslot <= tslot {
+		return 1, [][2]uint64{{3, bslot - minU(bslot, 1)}}
+	}
+	at := tslot // slot of the checkpoint block: at the epoch start, or earlier (empty slots)
+	if variant%3 == 1 && tslot >= 2 {
+		at = tslot - 2
+	}
+	if variant%3 == 2 && bslot > tslot+1 {
+		// a block between the checkpoint and the voted block
+		return 3, [][2]uint64{{8, tslot + 1}, {3, at}}
+	}
+	return 3, [][2]uint64{{3, at}}
+}
+
+func minU(a, b uint64) uint64 {
+	if a < b {
+		return a
+	}
+	return b
 }
 
 func windowAlts() []mutation {
@@ -225,11 +251,38 @@ func windowAlts() []mutation {
 func chainAlts(withBlockSlot bool) []variable {
 	vs := []variable{
 		{"bad", []mutation{m("bad-block", set("bad", "1"))}},
-		{"bknown", []mutation{m("block-unknown", set("bknown", "0"), set("tsub", "unk"), set("tckpt", "0"), set("fsub", "unk")),
+		{"bknown", []mutation{m("block-unknown", set("bknown", "0"), set("tsub", "unk"), set("fsub", "unk")),
 			m("block-unknown-inconsistent-view", set("bknown", "0"))}},
-		{"tsub", []mutation{m("tsub=unk", set("tsub", "unk"), set("tckpt", "0")),
-			m("tsub=no", set("tsub", "no"), set("tckpt", "0")),
-			m("target-not-checkpoint", set("tckpt", "0"))}},
+		{"tsub", []mutation{m("tsub=unk", set("tsub", "unk")), m("tsub=no", set("tsub", "no"), set("anc", "9:0"))}},
+		{"checkpoint", []mutation{
+			// the target is an older ancestor; another block is the checkpoint block of the epoch
+			m("target-not-checkpoint", func(k *kvs) {
+				t := k.u("tepoch") * 8
+				if c := mustCtx(k); c != nil {
+					t = k.u("tepoch") * uint64(c.spec.SLOTS_PER_EPOCH)
+				}
+				if k.u("bslot") > t && t >= 1 {
+					k.set("anc", fmt.Sprintf("7:%d,%d:%d", t, k.u("troot"), t-1))
+				} else if t >= 2 {
+					// the voted block itself is the checkpoint block, the target names its parent
+					k.setU("troot", 3).set("anc", fmt.Sprintf("3:%d", minU(k.u("bslot"), t)-1))
+				}
+			}),
+			m("target=block-after-epoch-start", func(k *kvs) { k.setU("troot", k.u("broot")) }),
+			m("ancestors-unknown", set("anc", "-")),
+			m("ancestors-never-reach-target", func(k *kvs) {
+				var a [][2]uint64
+				for j := uint64(0); j < 40; j++ {
+					a = append(a, [2]uint64{20 + j, k.u("bslot")})
+				}
+				k.set("anc", fmtPairs(a))
+			}),
+			m("two-blocks-between", func(k *kvs) {
+				t := k.u("tepoch") * uint64(mustCtx(k).spec.SLOTS_PER_EPOCH)
+				if k.u("bslot") > t+2 {
+					k.set("anc", fmt.Sprintf("8:%d,9:%d,%d:%d", t+2, t+1, k.u("troot"), t))
+				}
+			})}},
 		{"fin", []mutation{m("fsub=unk", set("fsub", "unk")), m("fsub=no", set("fsub", "no")),
 			m("block-is-finalized", rel("broot", "froot", 0)),
 			m("block-is-finalized,fepoch>tepoch", rel("broot", "froot", 0), rel("fepoch", "tepoch", 1)),
@@ -303,12 +356,14 @@ func attFamily(o hreg.Opts) *family {
 		{"dom", []mutation{m("domain-err", set("dom", "0"))}},
 		{"sig", append(sigAlts("sigk"), m("signer=other-member", func(k *kvs) { k.setU("signer", otherMember(k)) }),
 			m("signer=outsider", func(k *kvs) { k.setU("signer", uint64(mustCtx(k).def.validators)) }))},
-		{"fork", []mutation{m("fork=deneb", set("fork", "deneb")),
-			m("fork=deneb,window+20", set("fork", "deneb"), rel("min", "slot", 20), rel("max", "slot", 20)),
-			m("fork=deneb,window+33", set("fork", "deneb"), rel("min", "slot", 33), rel("max", "slot", 33)),
-			m("fork=deneb,window+40", set("fork", "deneb"), rel("min", "slot", 40), rel("max", "slot", 40)),
-			m("fork=deneb,window+63", set("fork", "deneb"), rel("min", "slot", 63), rel("max", "slot", 63)),
-			m("fork=deneb,window+64", set("fork", "deneb"), rel("min", "slot", 64), rel("max", "slot", 64))}},
+		{"fork", []mutation{m("fork=deneb", set("fork", "deneb"), setU("denebepoch", 0)),
+			m("deneb-at-current-epoch", set("fork", "deneb"), func(k *kvs) { k.setU("denebepoch", k.u("max")/uint64(mustCtx(k).spec.SLOTS_PER_EPOCH)) }),
+			m("deneb-next-epoch", func(k *kvs) { k.setU("denebepoch", k.u("max")/uint64(mustCtx(k).spec.SLOTS_PER_EPOCH)+1) }),
+			m("fork=deneb,window+20", set("fork", "deneb"), setU("denebepoch", 0), rel("min", "slot", 20), rel("max", "slot", 20)),
+			m("fork=deneb,window+33", set("fork", "deneb"), setU("denebepoch", 0), rel("min", "slot", 33), rel("max", "slot", 33)),
+			m("fork=deneb,window+40", set("fork", "deneb"), setU("denebepoch", 0), rel("min", "slot", 40), rel("max", "slot", 40)),
+			m("fork=deneb,window+63", set("fork", "deneb"), setU("denebepoch", 0), rel("min", "slot", 63), rel("max", "slot", 63)),
+			m("fork=deneb,window+64", set("fork", "deneb"), setU("denebepoch", 0), rel("min", "slot", 64), rel("max", "slot", 64))}},
 	}, chainAlts(true)...)
 	return f
 }
@@ -378,12 +433,18 @@ func aggBase(cfg string, slot, idx uint64, bits []uint64) *kvs {
 			bits = append(bits, uint64(i))
 		}
 	}
+	bslot := slot
+	if slot > 0 {
+		bslot = slot - 1
+	}
+	troot, anc := voteChain(ep*spe, bslot, int(slot))
 	k := newKVs("agg")
 	k.set("cfg", cfg).set("fork", "phase0").setU("slot", slot).setU("idx", idx).setU("tepoch", ep).setU("aggregator", aggr).
-		setU("bitlen", uint64(len(comm))).setL("bits", bits).setU("broot", 1).setU("troot", 3).
+		setU("bitlen", uint64(len(comm))).setL("bits", bits).setU("broot", 1).setU("troot", troot).
 		set("selk", "ok").set("osigk", "ok").set("asigk", "ok").
 		setU("min", slot).setU("max", slot).set("seenaggr", "0").set("seenagg", "0").set("bad", "0").set("bknown", "1").
-		set("tsub", "yes").set("tckpt", "1").setU("froot", 2).set("fsub", "yes").setU("fepoch", fe).set("tow", "1").
+		setU("bslot", bslot).set("anc", fmtPairs(anc)).setU("denebepoch", ^uint64(0)).
+		set("tsub", "yes").setU("froot", 2).set("fsub", "yes").setU("fepoch", fe).set("tow", "1").
 		set("epc", "1").set("state", "1")
 	return k
 }
@@ -452,13 +513,15 @@ func aggFamily(o hreg.Opts) *family {
 		{"outer", sigAlts("osigk")},
 		{"aggsig", asig("wrongkey", "missing", "wrongmsg", "wrongdomain", "garbage", "infinity", "zero")},
 		{"state", []mutation{m("state-err", set("state", "0"))}},
-		{"fork", []mutation{m("fork=deneb", set("fork", "deneb")),
-			m("fork=deneb,window+20", set("fork", "deneb"), rel("min", "slot", 20), rel("max", "slot", 20)),
-			m("fork=deneb,window+33", set("fork", "deneb"), rel("min", "slot", 33), rel("max", "slot", 33)),
-			m("fork=deneb,window+40", set("fork", "deneb"), rel("min", "slot", 40), rel("max", "slot", 40)),
-			m("fork=deneb,window+63", set("fork", "deneb"), rel("min", "slot", 63), rel("max", "slot", 63)),
-			m("fork=deneb,window+64", set("fork", "deneb"), rel("min", "slot", 64), rel("max", "slot", 64))}},
-	}, chainAlts(false)...)
+		{"fork", []mutation{m("fork=deneb", set("fork", "deneb"), setU("denebepoch", 0)),
+			m("deneb-at-current-epoch", set("fork", "deneb"), func(k *kvs) { k.setU("denebepoch", k.u("max")/uint64(mustCtx(k).spec.SLOTS_PER_EPOCH)) }),
+			m("deneb-next-epoch", func(k *kvs) { k.setU("denebepoch", k.u("max")/uint64(mustCtx(k).spec.SLOTS_PER_EPOCH)+1) }),
+			m("fork=deneb,window+20", set("fork", "deneb"), setU("denebepoch", 0), rel("min", "slot", 20), rel("max", "slot", 20)),
+			m("fork=deneb,window+33", set("fork", "deneb"), setU("denebepoch", 0), rel("min", "slot", 33), rel("max", "slot", 33)),
+			m("fork=deneb,window+40", set("fork", "deneb"), setU("denebepoch", 0), rel("min", "slot", 40), rel("max", "slot", 40)),
+			m("fork=deneb,window+63", set("fork", "deneb"), setU("denebepoch", 0), rel("min", "slot", 63), rel("max", "slot", 63)),
+			m("fork=deneb,window+64", set("fork", "deneb"), setU("denebepoch", 0), rel("min", "slot", 64), rel("max", "slot", 64))}},
+	}, chainAlts(true)...)
 	return f
 }
 
@@ -658,7 +721,7 @@ func syncMsgFamily(o hreg.Opts) *family {
 	}
 	f.vars = []variable{
 		{"window", syncWindowAlts()},
-		{"bknown", []mutation{m("block-unknown", set("bknown", "0"), set("tsub", "unk"), set("tckpt", "0"), set("fsub", "unk")),
+		{"bknown", []mutation{m("block-unknown", set("bknown", "0"), set("tsub", "unk"), set("fsub", "unk")),
 			m("block-unknown-inconsistent-view", set("bknown", "0"))}},
 		{"epc", []mutation{m("epc-err", set("epc", "0"))}},
 		{"validator", []mutation{m("non-member", nonMember), m("other-committee-member", nextMember),
@@ -748,7 +811,7 @@ func contribFamily(o hreg.Opts) *family {
 		{"bits", []mutation{m("bits:none", set("bits", "-")), m("bits:one", set("bits", "2"))}},
 		{"aggregator", []mutation{m("aggregator-not-selected", notSelected), m("aggregator-other-subcommittee", otherSub),
 			m("aggregator=n", func(k *kvs) { k.setU("aggregator", uint64(mustCtx(k).def.validators)) }), m("aggregator=max", setU("aggregator", ^uint64(0)))}},
-		{"bknown", []mutation{m("block-unknown", set("bknown", "0"), set("tsub", "unk"), set("tckpt", "0"), set("fsub", "unk")),
+		{"bknown", []mutation{m("block-unknown", set("bknown", "0"), set("tsub", "unk"), set("fsub", "unk")),
 			m("block-unknown-inconsistent-view", set("bknown", "0"))}},
 		{"epc", []mutation{m("epc-err", set("epc", "0"))}},
 		{"seen", []mutation{m("seen", set("seen", "1"))}},
